@@ -416,6 +416,12 @@ func (w *World) applyTx(h int64, idx int, p *TxPlan, r *abci.ResponseDeliverTx, 
 	if p.SigMalleated {
 		w.Probes.Hit("tamper.sig-malleated")
 	}
+	if p.InertMut {
+		w.Probes.Hit("tamper.inert-bytes")
+	}
+	if p.Tampered && !ok {
+		w.tamperedAt[h] = true
+	}
 
 	if !ok && tx.Type == trxVoting && !p.Tampered && p.ReplayOf < 0 {
 		w.checkVoteShouldCount(h, idx, p, r, gov)
